@@ -893,8 +893,10 @@ func (p *H265Payloader) Payload(mtu uint16, payload []byte) [][]byte { //nolint:
 
 				payloads = append(payloads, buf)
 			} else {
-				// write the nalu directly to the payload
-				payloads = append(payloads, nalu)
+				// write a copy of the nalu to the payload: nalu points into the caller's buffer
+				buf := make([]byte, len(nalu))
+				copy(buf, nalu)
+				payloads = append(payloads, buf)
 			}
 		} else {
 			// construct an aggregation packet
